@@ -703,12 +703,17 @@ def to_hashable(  # noqa: C901, PLR0911, PLR0912
     numpy arrays and pandas Series/DataFrames.
 
     """
+    m = _HASH_MARKER
     try:
         hash(obj)
     except Exception:  # noqa: BLE001, S110
         pass
     else:
-        return obj
+        # A hashable tuple that starts with the marker looks like a converted
+        # object; tag it like an unhashable tuple so that it cannot be confused
+        # with the key of e.g. a list.
+        if not (isinstance(obj, tuple) and obj and isinstance(obj[0], str) and obj[0] == m):
+            return obj
 
     tp: type | str = type(obj)
     try:
@@ -716,7 +721,6 @@ def to_hashable(  # noqa: C901, PLR0911, PLR0912
     except Exception:  # noqa: BLE001
         tp = tp.__name__  # type: ignore[union-attr]
 
-    m = _HASH_MARKER
     if isinstance(obj, collections.OrderedDict):
         return (m, tp, _hashable_mapping(obj, fallback_to_pickle))
     if isinstance(obj, collections.defaultdict):
